@@ -297,3 +297,72 @@ func VfC18_GlobalEnums() {
 	vfAssert("C18.globalenum.func", vfAnd(vfAnd(f2.Linkage == f.Linkage, f2.Preemption == f.Preemption), vfAnd(vfAnd(f2.Visibility == f.Visibility, f2.DLLStorageClass == f.DLLStorageClass), vfAnd(f2.CallingConv == f.CallingConv, f2.UnnamedAddr == f.UnnamedAddr))))
 	vfAssert("C18.globalenum.comdat", cd2.Kind == cd.Kind)
 }
+
+// VfC18_GlobalEnumPairs: two header fields at a time (a printer that decides
+// whether to write one keyword by looking at another field is only seen with
+// both set): every pair of members of every two of linkage, preemption,
+// visibility, DLL storage class, TLS model and unnamed_addr on a global
+// variable, and of the applicable ones on a function.
+//
+//vf:unwind 400
+//vf:shards 16
+func VfC18_GlobalEnumPairs() {
+	pair := vfChoice("families", 15)
+	// the 15 unordered pairs of 6 families
+	fa, fb := 0, 0
+	k := 0
+	for i := 0; i < 6; i++ {
+		for j := i + 1; j < 6; j++ {
+			if k == pair {
+				fa, fb = i, j
+			}
+			k++
+		}
+	}
+	m := ir.NewModule()
+	g := m.NewGlobalDef("g", constant.NewInt(types.I32, 0))
+	f := m.NewFunc("f", types.Void)
+	f.NewBlock("entry").NewRet(nil)
+	set := func(fam int, name string) {
+		switch fam {
+		case 0:
+			l := hGenM_Linkage[vfChoice(name, len(hGenM_Linkage))]
+			if l == enum.LinkageExternal || l == enum.LinkageExternWeak {
+				g.Init = nil
+				f.Blocks = nil
+			}
+			g.Linkage, f.Linkage = l, l
+		case 1:
+			p := hGenM_Preemption[vfChoice(name, len(hGenM_Preemption))]
+			if p == enum.PreemptionDSOLocalEquivalent {
+				vfCut("dso_local_equivalent is not a preemption specifier of a definition")
+			}
+			g.Preemption, f.Preemption = p, p
+		case 2:
+			v := hGenM_Visibility[vfChoice(name, len(hGenM_Visibility))]
+			g.Visibility, f.Visibility = v, v
+		case 3:
+			d := hGenM_DLLStorageClass[vfChoice(name, len(hGenM_DLLStorageClass))]
+			g.DLLStorageClass, f.DLLStorageClass = d, d
+		case 4:
+			g.TLSModel = hGenM_TLSModel[vfChoice(name, len(hGenM_TLSModel))]
+		default:
+			u := hGenM_UnnamedAddr[vfChoice(name, len(hGenM_UnnamedAddr))]
+			g.UnnamedAddr, f.UnnamedAddr = u, u
+		}
+	}
+	set(fa, "first")
+	set(fb, "second")
+	vfReach("C18.globalenum.pairs")
+	s := m.String()
+	vfObserveStr("printed", s)
+	m2, err := ParseString("t.ll", s)
+	vfAssert("C18.pairs.reparses", err == nil)
+	if err != nil {
+		return
+	}
+	g2, f2 := m2.Globals[0], m2.Funcs[0]
+	vfAssert("C18.pairs.global", vfAnd(vfAnd(g2.Linkage == g.Linkage, g2.Preemption == g.Preemption), vfAnd(vfAnd(g2.Visibility == g.Visibility, g2.DLLStorageClass == g.DLLStorageClass), vfAnd(g2.TLSModel == g.TLSModel, g2.UnnamedAddr == g.UnnamedAddr))))
+	vfAssert("C18.pairs.func", vfAnd(vfAnd(f2.Linkage == f.Linkage, f2.Preemption == f.Preemption), vfAnd(vfAnd(f2.Visibility == f.Visibility, f2.DLLStorageClass == f.DLLStorageClass), f2.UnnamedAddr == f.UnnamedAddr)))
+	vfAssert("C18.pairs.fixpoint", m2.String() == s)
+}
